@@ -171,6 +171,61 @@ func runStream(chunkText string) string {
 	return fmt.Sprintf("frames=%s %s", strings.Join(lens, "+"), out)
 }
 
+// pendingStream builds the chunk text of a stream of type-6 blocks (3-byte length form) whose reads keep
+// exactly pend bytes of an incomplete block pending, sized so that pend + sum(blocks) == capacity, followed
+// by two more one-byte reads.
+func pendingStream(pend, capacity int) string {
+	n := (capacity - pend) / (pend + 1)
+	sizes := make([]int, n)
+	sum := 0
+	for i := range sizes {
+		sizes[i] = (capacity - pend) / n
+		sum += sizes[i]
+	}
+	for i := 0; sum < capacity-pend; i++ {
+		sizes[i%n]++
+		sum++
+	}
+	type piece struct {
+		hex string
+		z   int
+	}
+	var stream []piece
+	for _, sz := range append(append([]int{}, sizes...), sizes[0]+7) {
+		stream = append(stream, piece{common.Hex(append([]byte{6}, c13.EncTL(uint64(sz-4))...)), 0}, piece{"", sz - 4})
+	}
+	cutSizes := append(append([]int{pend}, sizes...), 1, 1)
+	var all []string
+	pi, used := 0, 0
+	for _, want := range cutSizes {
+		var parts []string
+		for want > 0 && pi < len(stream) {
+			pc := stream[pi]
+			plen := pc.z
+			if pc.hex != "" {
+				plen = len(pc.hex) / 2
+			}
+			take := plen - used
+			if take > want {
+				take = want
+			}
+			if pc.hex != "" {
+				parts = append(parts, pc.hex[2*used:2*(used+take)])
+			} else if take > 0 {
+				parts = append(parts, "z"+strconv.Itoa(take))
+			}
+			used += take
+			want -= take
+			if used == plen {
+				pi++
+				used = 0
+			}
+		}
+		all = append(all, strings.Join(parts, "."))
+	}
+	return strings.Join(all, ",")
+}
+
 // ---------------------------------------------------------------- PIT-token dispatch
 
 func newDisp(n int) string {
@@ -255,10 +310,15 @@ func genLink(g *common.Gen, packets [][]byte) {
 		g.Op("new link %d %d", nThreads, map[bool]int{false: 0, true: 1}[reasm])
 		g.Stat("link-history")
 		inner := [][]byte{simpleInterest("a"), simpleInterest("ndn"), simpleData("a", []byte("hello")), simpleData("b", r.Bytes(40))}
+		// a rotating window over the minimal / generated packets (Interest or Data at the top level)
+		var cand [][]byte
 		for _, pk := range packets {
-			if len(inner) < 10 && len(pk) > 4 && (pk[0] == 5 || pk[0] == 6) {
-				inner = append(inner, pk)
+			if len(pk) > 1 && (pk[0] == 5 || pk[0] == 6) {
+				cand = append(cand, pk)
 			}
+		}
+		for j := 0; j < 12 && len(cand) > 0; j++ {
+			inner = append(inner, cand[(h*12+j)%len(cand)])
 		}
 		nOps := r.Range(8, 30)
 		for k := 0; k < nOps; k++ {
@@ -358,64 +418,17 @@ func genLink(g *common.Gen, packets [][]byte) {
 		big(6, 8800) + "," + big(6, 100),
 		big(6, 9000),                           // larger than a packet but complete in one read
 	}
-	// the zero-length-read corner: exactly MaxNDNPacketSize unread bytes of an incomplete TLV at the
-	// end of the buffer (30 TLVs of 9093/9094 bytes, each arriving 8800 bytes ahead)
-	{
-		sizes := make([]int, 30)
-		sum := 0
-		for i := range sizes {
-			sizes[i] = 9093
-			sum += 9093
-		}
-		for i := 0; sum < 272800; i++ {
-			sizes[i%30]++
-			sum++
-		}
-		var all []string
-		// stream = TLV_1 … TLV_30, TLV_31 (never completed); reads: 8800, then s_i each
-		tl := func(sz int) (string, int) { // total size sz => value length sz-4 (fd xx xx form, type 6)
-			return common.Hex(append([]byte{6}, c13.EncTL(uint64(sz-4))...)), sz - 4
-		}
-		// build the byte stream as chunk text pieces and cut it at the wanted read boundaries
-		type piece struct {
-			hex string
-			z   int
-		}
-		var stream []piece
-		for _, s := range append(sizes, 9093) {
-			h, z := tl(s)
-			stream = append(stream, piece{h, 0}, piece{"", z})
-		}
-		// flatten into a virtual byte string description and cut
-		cutSizes := append([]int{8800}, sizes...)
-		pi, used := 0, 0 // position inside stream[pi]
-		for _, want := range cutSizes {
-			var parts []string
-			for want > 0 && pi < len(stream) {
-				pc := stream[pi]
-				plen := pc.z
-				if pc.hex != "" {
-					plen = len(pc.hex) / 2
-				}
-				take := plen - used
-				if take > want {
-					take = want
-				}
-				if pc.hex != "" {
-					parts = append(parts, pc.hex[2*used:2*(used+take)])
-				} else if take > 0 {
-					parts = append(parts, "z"+strconv.Itoa(take))
-				}
-				used += take
-				want -= take
-				if used == plen {
-					pi++
-					used = 0
-				}
-			}
-			all = append(all, strings.Join(parts, "."))
-		}
-		fixed = append(fixed, strings.Join(all, ","))
+	// boundary-driven family: keep exactly `pend` unread bytes of an incomplete block pending after every
+	// read (blocks of pend+1.. bytes, each read ends `pend` bytes into the next block) until the sum of
+	// what was read equals the buffer capacity; correct code must either compact (pend <= packet size)
+	// or reject (pend > packet size) - never reach a zero-length read. Total length hits the capacity exactly.
+	for _, pend := range []int{8798, 8799, 8800, 8801, 8802, 8825, 8849, 8850, 8851, 8860, 9000} {
+		fixed = append(fixed, pendingStream(pend, defn.MaxNDNPacketSize*32))
+	}
+	// blocks around the packet size arriving whole, one per read and several per read
+	for _, sz := range []int{8798, 8799, 8800, 8801, 8802, 8850, 8860} {
+		fixed = append(fixed, big(6, sz-4)+","+big(6, sz-4)+","+big(5, 10))
+		fixed = append(fixed, big(6, sz-4)+"."+big(6, sz-4)+"."+big(5, 10))
 	}
 	for _, s := range fixed {
 		g.Op("new stream")
